@@ -137,6 +137,30 @@ __CPROVER_ensures(hmm->score[0] >= HW && hmm->score[0] <= 0 && hmm->score[1] >= 
 __CPROVER_ensures(hmm->out_score >= HW && hmm->out_score <= 0)
 ;
 
+
+/* a cleared HMM (hmm_init, lextree deactivation): every score inactive, every back-pointer slot -1, no frame -- the base
+ * case of the history-source invariant HIST_SRC (no slot names a history entry).  n_emit_state <= HMM_MAX_NSTATE is the
+ * size of the arrays, so unwinding the loop 5 times is complete. */
+void hmm_clear(hmm_t *h)
+__CPROVER_requires(__CPROVER_is_fresh(h, sizeof(*h)) && h->n_emit_state >= 1 && h->n_emit_state <= HMM_MAX_NSTATE)
+__CPROVER_requires(0 <= verif_k && verif_k < HMM_MAX_NSTATE)
+__CPROVER_assigns(h->score[0], h->score[1], h->score[2], h->score[3], h->score[4], h->history[0], h->history[1], h->history[2], h->history[3], h->history[4],
+                  h->out_score, h->out_history, h->bestscore, h->frame)
+__CPROVER_ensures(IMP(verif_k < h->n_emit_state, h->score[verif_k] == HW && h->history[verif_k] == -1))
+__CPROVER_ensures(h->out_score == HW && h->out_history == -1 && h->bestscore == HW && h->frame == -1)
+;
+/* renormalisation (state aligner): active scores are shifted by exactly bestscr, inactive ones stay inactive, nothing wraps */
+int32 verif_nsnap;
+void hmm_normalize(hmm_t *h, int32 bestscr)
+__CPROVER_requires(__CPROVER_is_fresh(h, sizeof(*h)) && h->n_emit_state >= 1 && h->n_emit_state <= HMM_MAX_NSTATE)
+__CPROVER_requires(0 <= verif_k && verif_k < h->n_emit_state && verif_nsnap == h->score[verif_k])
+__CPROVER_requires(bestscr >= HW && bestscr <= 0 && h->out_score >= HW && h->out_score <= 0)
+__CPROVER_requires(h->score[0] >= HW && h->score[0] <= 0 && h->score[1] >= HW && h->score[1] <= 0 && h->score[2] >= HW && h->score[2] <= 0
+                   && h->score[3] >= HW && h->score[3] <= 0 && h->score[4] >= HW && h->score[4] <= 0)
+__CPROVER_assigns(h->score[0], h->score[1], h->score[2], h->score[3], h->score[4], h->out_score)
+__CPROVER_ensures(h->score[verif_k] == (verif_nsnap > HW ? verif_nsnap - bestscr : HW))
+__CPROVER_ensures(h->out_score == (__CPROVER_old(h->out_score) > HW ? __CPROVER_old(h->out_score) - bestscr : HW))
+;
 /* never reached for 3-state HMMs: a call would violate these (unsatisfiable) preconditions */
 static int32 hmm_vit_eval_5st_lr(hmm_t *hmm) __CPROVER_requires(0) __CPROVER_assigns() __CPROVER_ensures(1);
 static int32 hmm_vit_eval_5st_lr_mpx(hmm_t *hmm) __CPROVER_requires(0) __CPROVER_assigns() __CPROVER_ensures(1);
